@@ -4,7 +4,8 @@ params:
   count    int | None | {"script": [[from_tick, value|None|"raise"], ...]}  (dynamic count callable)
   block    bool
   flavour  "manual" (ManualExecutor delegate, mirrors spec/Throttle.tla) | "pool"
-  jobs     [{S: submit time, D: duration, K: cancel time or None, C: delegate cancellable}]
+  jobs     [{S: submit time, D: duration, K: cancel time or None, C: delegate cancellable,
+             cbd: a done-callback of the returned future takes this many ticks (slow user callback)}]
   horizon  ticks
 """
 from .. import engine as E
@@ -63,6 +64,8 @@ def build(p):
             E.vsleep(jb["S"])
             fn = H.Scripted(j, [("V", Val(j))], dur=0 if flavour == "manual" else jb["D"])
             fut = H.do_submit(ex, j, fn)
+            if fut is not None and jb.get("cbd"):
+                fut.add_done_callback(lambda f_, d=jb["cbd"]: E.vsleep(d))     # a slow user callback
             if fut is not None and jb.get("K") is not None:
                 E.spawn("can%d" % j, canceller, j, fut, jb["K"])
 
